@@ -317,7 +317,7 @@ def bidir_cases():
 
 @st.composite
 def netlist_cases(draw, max_nodes, n_cycles):
-    desc = draw(netlists(max_nodes=max_nodes, n_regs=(0, 3), hierarchy=1, div=True, reg_values=True))
+    desc = draw(netlists(max_nodes=max_nodes, n_regs=(0, 3), hierarchy=1, div=True, reg_values=True, reg_d_any=True))
     # negative and oversized reset values
     for nd in desc['nodes']:
         if nd['op'] == 'Reg' and draw(st.booleans()):
